@@ -770,6 +770,23 @@ fn gen_monthday_range(ch: &mut Choices, cfg: &Cfg, out: &mut String) -> Monthday
         // single date
         2 => {
             let with_year = ch.chance(25);
+            // a day of the last days of December pushed forward, or of the first days of
+            // January pulled back, by a weekday or a few days: it may fall in the adjacent year
+            if !cfg.canonical && ch.chance(14) {
+                let december = ch.chance(50);
+                let date = gen_year_edge_date(ch, cfg, out, with_year, Some(december));
+                let offset = if ch.chance(65) {
+                    let w = ch.pick(&WDAYS);
+                    out.push(if december { '+' } else { '-' });
+                    out.push_str(wday_str(w));
+                    DateOffset { wday_offset: if december { WeekDayOffset::Next(w) } else { WeekDayOffset::Prev(w) }, day_offset: 0 }
+                } else {
+                    let n = 2 + i64::from(ch.draw(9));
+                    out.push_str(&format!(" {}{n} days", if december { '+' } else { '-' }));
+                    DateOffset { wday_offset: WeekDayOffset::None, day_offset: if december { n } else { -n } }
+                };
+                return MonthdayRange::Date { start: (date, offset), end: (date, offset) };
+            }
             let date = gen_date(ch, cfg, out, with_year);
             let offset = if cfg.single_date_max_offset > 41 && ch.chance(8) {
                 let n = ch.int(41, cfg.single_date_max_offset) * if ch.chance(50) { -1 } else { 1 };
@@ -953,6 +970,7 @@ fn gen_rule(ch: &mut Choices, cfg: &Cfg, out: &mut String, operator: RuleOperato
             if !(has_year || has_md || has_week || has_wd || has_time) {
                 has_wd = true;
             }
+            let year_mark = out.len();
             if has_year {
                 day.year = gen_year_selector(ch, cfg, out);
             }
@@ -973,7 +991,15 @@ fn gen_rule(ch: &mut Choices, cfg: &Cfg, out: &mut String, operator: RuleOperato
                     && out[..mark].contains('/')
                     && day.year.last().is_some_and(|yr| out[..mark].rsplit(',').next().is_some_and(|t| t.contains('/')) && yr.step >= 1)
                     && first_monthday_has_year(&day.monthday[0]);
-                if lone_year || step_then_digit {
+                if lone_year && !step_then_digit && ch.chance(50) {
+                    // the other remedy: the same one-year selector written as a range, which
+                    // cannot be read as the year of the following month/date
+                    let y = day.year[0].range.start().0;
+                    let tail = out.split_off(mark);
+                    out.truncate(year_mark);
+                    out.push_str(&format!("{y}-{y}"));
+                    out.push_str(&tail);
+                } else if lone_year || step_then_digit {
                     let y = day.year.last().unwrap().range.start().0;
                     let tail = out.split_off(mark);
                     let y2 = if y < 9999 { y + 1 } else { 1900 };
